@@ -372,6 +372,64 @@ def special_member_finders(ctx):
                    "X(const X&, int = 0) is a copy constructor too: %s" % ("the flag is NOT restricted to one-parameter members" if not only_one else "the flag is set only behind `size() == 1`, so such a constructor is missed and an implicit one is synthesised next to it"))
 
 
+def override_matching(ctx):
+    """R10.4: abstractness and polymorphism rest on get_virtual_funcs()/get_pure_virtual_funcs(), which match a member
+    against an inherited virtual with CPPFunctionType::match_virtual_override().  `override` and `final` are not part of
+    the signature on EITHER side: an intermediate class that wrote `override` must still be overridable further down."""
+    from .C18 import _ev
+    db = ctx.db
+    ctx.rule("R10.4", "the flag test of match_virtual_override(), evaluated from its expression tree for every pair of flag words over {const, noexcept, override, final, variadic}, rejects a pair iff the words differ outside {F_override, F_final}")
+    fn = db.fn("CPPFunctionType::match_virtual_override")
+    en = db.enums.get("CPPFunctionType::Flags")
+    if en is None:
+        ctx.broken("enum CPPFunctionType::Flags not found")
+    val = {c["n"].split("::")[-1]: c["v"] for c in en["consts"]}
+    need = ["F_const_method", "F_override", "F_final"]
+    for k in need:
+        if k not in val:
+            ctx.broken("enumerator %s not found" % k)
+    # the branch whose condition reads _flags of both objects
+    tests = []
+    for n in fn.walk():
+        if n.get("k") == "if":
+            flds = [(x["n"].split("::")[-1], (peel(x.get("b")) or {}).get("k")) for x in walk(n["c"]) if x.get("k") == "mem" and not x.get("method")]
+            if any(f == "_flags" for f, _ in flds):
+                tests.append(n)
+    if len(tests) != 1:
+        ctx.broken("match_virtual_override: expected one test of _flags, found %d" % len(tests))
+    t = tests[0]
+    rejects = any(x.get("k") == "ret" and const_int(x.get("e")) == 0 for x in walk(t["then"]))
+    if not rejects:
+        ctx.broken("match_virtual_override: the _flags test no longer returns false")
+    other = [p for p in fn.params][0]["n"]
+    bits = [val["F_const_method"], val["F_override"], val["F_final"]] + [val[k] for k in ("F_noexcept", "F_variadic", "F_volatile_method", "F_lvalue_method") if k in val][:2]
+    ignore = val["F_override"] | val["F_final"]
+    words = []
+    for m in range(1 << len(bits)):
+        w = 0
+        for i, b in enumerate(bits):
+            if m >> i & 1:
+                w |= b
+        words.append(w)
+    bad = []
+    n_eval = 0
+    try:
+        for a in words:
+            for b in words:
+                n_eval += 1
+                got = bool(_ev(db, t["c"], {"_flags": a, other + "._flags": b}))
+                want = ((a ^ b) & ~ignore) != 0
+                if got != want and len(bad) < 4:
+                    names = lambda w: "|".join(k for k in val if val[k] and val[k] & w and bin(val[k]).count("1") == 1) or "0"
+                    bad.append("this=%s other=%s: %s, should %s" % (names(a), names(b), "rejected" if got else "accepted", "reject" if want else "accept"))
+    except ValueError as e:
+        ctx.ob("R10.4", "match_virtual_override|flags-modulo-override-final", False, fn.loc(t), "flag test not evaluable: %s" % e)
+        return
+    ctx.ob("R10.4", "match_virtual_override|flags-modulo-override-final", not bad, fn.loc(t),
+           "`%s` evaluated on %d flag pairs: %s" % (show(t["c"])[:70], n_eval, "; ".join(bad) if bad else "rejects exactly the pairs that differ outside override/final"))
+    ctx.floor("R10.4", "flag pairs evaluated", n_eval, 256)
+
+
 def run(ctx):
     db = ctx.db
     ctx.rule("R10.1", "each is_*(CPPVisibility) predicate of CPPStructType has every dependency its C++ rule requires (spec: ivf/spec/special_members.json)")
@@ -391,6 +449,7 @@ def run(ctx):
 
     # ------------------------------------------------------------ R10.3
     special_member_finders(ctx)
+    override_matching(ctx)
 
     # ------------------------------------------------------------ R10.2
     fd = db.fn("InterrogateBuilder::define_struct_type")
